@@ -1,0 +1,30 @@
+//! Verification hooks, only compiled with `--cfg specs_verif`.
+//!
+//! Nothing in here changes the behaviour of the crate: the yield hook is a
+//! thread-local callback which is a no-op unless a test harness installs one.
+
+use std::cell::RefCell;
+
+thread_local! {
+    static YIELD_HOOK: RefCell<Option<Box<dyn FnMut(&'static str)>>> = RefCell::new(None);
+}
+
+/// Installs (or removes) the yield hook of the calling thread.
+pub fn set_yield_hook(hook: Option<Box<dyn FnMut(&'static str)>>) {
+    YIELD_HOOK.with(|h| *h.borrow_mut() = hook);
+}
+
+/// Called between the atomic steps of the lock-free entity allocation /
+/// deletion paths and before a lazy action is queued.
+#[inline]
+pub fn yield_point(site: &'static str) {
+    YIELD_HOOK.with(|h| {
+        // `try_borrow_mut` so a hook that (indirectly) reaches another yield
+        // point does not panic.
+        if let Ok(mut h) = h.try_borrow_mut() {
+            if let Some(f) = h.as_mut() {
+                f(site);
+            }
+        }
+    });
+}
